@@ -7,7 +7,12 @@ Open Scope Z_scope.
 
 Inductive expect :=
 | Exact (l : list outcome)                          (* finite list of accepted (outputs, raised flags) *)
-| Pred (p : list Z -> bool) (fls : list Z).         (* any outputs satisfying p, with one of these flag sets *)
+| Pred (p : list Z -> bool) (fls : list Z)          (* any outputs satisfying p, with one of these flag sets *)
+| Known (id : Z) (required recorded : expect).      (* [required] is what the property demands; an answer that fails it but
+                                                       satisfies [recorded] is the recorded known finding number [id] *)
+
+(* known-finding classes (known_findings.json refers to them by these numbers) *)
+Definition KF_EXPJUNK := 1.   (* C04: characters after a complete exponent are ignored (pinned by the suite: "1.1E-2E") *)
 
 Inductive op :=
 | OAdd | OSub | OMul | ODiv | OSqrt | OFma
@@ -28,6 +33,14 @@ Inductive op :=
 | OConsts.
 
 Definition any_out (_ : list Z) : bool := true.
+
+(* modf of an infinity: (that infinity, a canonical zero of the same sign with any exponent) *)
+Definition modf_inf_ok (s:bool) (outs : list Z) : bool :=
+  match outs with
+  | [ip; fp] => (ip =? encode (Inf s)) && canonical_bits fp &&
+                match decode fp with Fin s' 0 _ => Bool.eqb s s' | _ => false end
+  | _ => false
+  end.
 
 Definition of_kind (e:expect_kind) : expect := match e with EList l => Exact l | EAny => Pred any_out [0] end.
 
@@ -67,7 +80,11 @@ Definition expected (o:op) (md:rmode) (args:list Z) : expect :=
   | ORint, [x] => Exact (rint_dec md true x)
   | ONearbyint, [x] => Exact (rint_dec md false x)
   | ORintFix m, [x] => Exact (rint_dec m false x)
-  | OModf, [x] => Exact (m_modf x)
+  | OModf, [x] =>
+      match decode x with
+      | Inf s => Pred (modf_inf_ok s) [0]      (* the exponent of the zero fractional part of an infinity is not fixed by C08 *)
+      | _ => Exact (m_modf x)
+      end
   | OFrexp, [x] => of_kind (m_frexp x)
   | ONextUp, [x] => Exact (m_next_up x)
   | ONextDown, [x] => Exact (m_next_down x)
@@ -108,18 +125,22 @@ Definition expected (o:op) (md:rmode) (args:list Z) : expect :=
       | SList ol => Exact ol
       | SGarbage => Pred is_default_qnan [0]
       | SSnanJunk _ => Pred is_any_nan0 [0]
+      | SExpJunk ol => Known KF_EXPJUNK (Pred is_default_qnan [0]) (Exact ol)
       end
   | OFromStr, l =>
       match m_parse RNE l with
       | SList ol => Exact (fromstr_of ol)
       | SGarbage => Pred (fun outs => match outs with [1; r] => is_default_qnan [r] | _ => false end) [0]
       | SSnanJunk _ => Pred (fun outs => match outs with [1; r] => is_any_nan0 [r] | _ => false end) [0]
+      | SExpJunk ol => Known KF_EXPJUNK (Pred (fun outs => match outs with [1; r] => is_default_qnan [r] | _ => false end) [0])
+                                        (Exact (fromstr_of ol))
       end
   | OFromStr2, l =>
       match m_parse RNE l with
       | SList ol => Exact (map (fun oc => (fst oc, 0)) ol)
       | SGarbage => Pred is_default_qnan [0]
       | SSnanJunk _ => Pred is_any_nan0 [0]
+      | SExpJunk ol => Known KF_EXPJUNK (Pred is_default_qnan [0]) (Exact (map (fun oc => (fst oc, 0)) ol))
       end
   | OFmt, [x] => Exact (m_fmt x)
   | OOpArith o', [x; y] => Exact (repeat_out 5 (arith2 o' RNE x y))
@@ -136,12 +157,16 @@ Fixpoint list_eqb (a b : list Z) : bool :=
   | _, _ => false
   end.
 
-Definition judge (e:expect) (fin:Z) (outs:list Z) (fout:Z) : bool :=
+(* verdict: 1 = accepted, 0 = rejected, 2 + id = the recorded known finding [id] *)
+Fixpoint judge (e:expect) (fin:Z) (outs:list Z) (fout:Z) : Z :=
   match e with
-  | Exact l => existsb (fun o => list_eqb (fst o) outs && (Z.lor fin (snd o) =? fout)) l
-  | Pred p fls => p outs && existsb (fun fl => Z.lor fin fl =? fout) fls
+  | Exact l => b2z (existsb (fun o => list_eqb (fst o) outs && (Z.lor fin (snd o) =? fout)) l)
+  | Pred p fls => b2z (p outs && existsb (fun fl => Z.lor fin fl =? fout) fls)
+  | Known id req rec =>
+      if judge req fin outs fout =? 1 then 1
+      else if judge rec fin outs fout =? 1 then 2 + id else 0
   end.
 
 (* what to print for a rejected case *)
-Definition expect_list (e:expect) : list outcome :=
-  match e with Exact l => l | Pred _ fls => map (fun f => ([], f)) fls end.
+Fixpoint expect_list (e:expect) : list outcome :=
+  match e with Exact l => l | Pred _ fls => map (fun f => ([], f)) fls | Known _ req _ => expect_list req end.
